@@ -385,6 +385,8 @@ def run_check(prop: str, tier: str, root=None, overrides=None, quiet=False, writ
         chk.explanation = getattr(mod, "EXPLANATION", "")
         chk.assumptions = list(getattr(mod, "ASSUMPTIONS", []))
         chk.trusted_base = list(getattr(mod, "TRUSTED_BASE", []))
+        from . import rulelib as _rulelib
+        _rulelib.CURRENT = chk
         try:
             mod.run(chk)
         except AnalysisError as e:
